@@ -159,3 +159,154 @@ def retsOfTwo : Option (List Bytes × List Bytes) :=
   | _ => none
 example : retsOfTwo = some ([[1]], [[2]]) := by decide +kernel
 end C07
+
+/-! ### history level: one holder, any calls by anyone, no hand-over in the history -/
+
+namespace Esdt
+
+structure HStep where
+  f : FnId
+  env : Env
+  c : Call
+
+/-- is this step a create by `h` for `tok`? -/
+def HStep.isCreate (s : HStep) (h tok : Bytes) : Bool :=
+  s.f == .nftCreate && s.c.caller == h && s.c.args[0]? == some tok
+
+def nonceOfRet (out : VMOutput) : Nat := match out.ret with | [b] => beNat b | _ => 0
+
+/-- run the steps from `A`; collect the nonces returned to `h` for `tok` (oldest first) -/
+def hrun (h tok : Bytes) : List HStep → Accts → List Nat × Accts
+  | [], A => ([], A)
+  | s :: rest, A =>
+    match exec s.env s.f s.c { accts := A } with
+    | .ok (out, ctx') =>
+      let r := hrun h tok rest ctx'.accts
+      if s.isCreate h tok then (nonceOfRet out :: r.1, r.2) else r
+    | _ => hrun h tok rest A
+
+def ctr (A : Accts) (h tok : Bytes) : Nat := counterOf (A.read h (nonceKeyPrefix ++ tok))
+
+/-- no counter of `h` for `tok` reaches 2^64 − 1 along the run (Go's uint64 would wrap to 0 there) -/
+def NoWrapAlong (h tok : Bytes) : List HStep → Accts → Prop
+  | [], A => ctr A h tok + 1 < 2 ^ 64
+  | s :: rest, A =>
+    ctr A h tok + 1 < 2 ^ 64 ∧
+    match exec s.env s.f s.c { accts := A } with
+    | .ok (_, ctx') => NoWrapAlong h tok rest ctx'.accts
+    | _ => NoWrapAlong h tok rest A
+
+theorem NoWrapAlong.head {h tok : Bytes} {steps : List HStep} {A : Accts} (hw : NoWrapAlong h tok steps A) :
+    ctr A h tok + 1 < 2 ^ 64 := by
+  cases steps with
+  | nil => exact hw
+  | cons s rest => exact hw.1
+
+/-- one successful step: the counter of (h, tok) is unchanged, or the step is a create by `h` for `tok`, the counter rose
+    by exactly one and the returned nonce is the new counter -/
+theorem hstep_counter (h tok : Bytes) (s : HStep) (hno : s.f ≠ .nftCreateRoleTransfer) (A : Accts) (out : VMOutput)
+    (ctx' : Ctx) (he : exec s.env s.f s.c { accts := A } = .ok (out, ctx')) (hw : ctr A h tok + 1 < 2 ^ 64) :
+    (s.isCreate h tok = false ∧ ctr ctx'.accts h tok = ctr A h tok) ∨
+    (s.isCreate h tok = true ∧ ctr ctx'.accts h tok = ctr A h tok + 1 ∧ nonceOfRet out = ctr A h tok + 1) := by
+  by_cases hc : s.f = .nftCreate
+  · have he' : esdtNFTCreate s.env s.c { accts := A } = .ok (out, ctx') := by
+      unfold exec at he; rw [hc] at he; simpa [runFn] using he
+    by_cases hcaller : s.c.caller = h
+    · obtain ⟨tok', n, h0, hn, hret, hread, _⟩ := C07.create_succ s.env s.c { accts := A } ctx' out he'
+      by_cases htok : tok' = tok
+      · subst htok
+        refine Or.inr ⟨by simp [HStep.isCreate, hc, hcaller, h0], ?_, ?_⟩
+        · have := C07.create_increments s.env s.c { accts := A } ctx' out he' tok' h0 (by rw [hcaller]; exact hw)
+          rw [hcaller] at this; exact this
+        · have hlt : counterOf (A.read s.c.caller (nonceKeyPrefix ++ tok')) + 1 < two64 := by
+            rw [hcaller]; simpa [two64, ctr] using hw
+          simp only [nonceOfRet, hret, beNat_beBytes, hn, u64_of_lt _ hlt]
+          rw [hcaller]; rfl
+      · refine Or.inl ⟨by simp [HStep.isCreate, h0, htok], ?_⟩
+        -- a create for another token writes (caller, nftKey tok' n) and (caller, nonce‖tok') only
+        obtain ⟨tok2, qb, name, roy, hash, attrs, n2, A1, h0', _, _, _, _, _, _, _, _, _, hA1, hwr⟩ :=
+          (nftCreate_effect s.env s.c { accts := A }).elim he'
+        rw [h0] at h0'; cases h0'
+        simp only [ctr]
+        rw [hwr, Accts.read_write, hA1, Accts.read_write]
+        have h1 : ¬ (s.c.caller = h ∧ nonceKeyPrefix ++ tok' = nonceKeyPrefix ++ tok) := by
+          rintro ⟨_, e⟩; exact htok (List.append_cancel_left e)
+        have h2 : ¬ (s.c.caller = h ∧ nftKey (esdtKeyPrefix ++ tok') n2 = nonceKeyPrefix ++ tok) := by
+          rintro ⟨_, e⟩
+          have := congrArg (List.take 7) e
+          simp [nonceKeyPrefix, esdtKeyPrefix, nftKey, ascii] at this
+        rw [if_neg h1, if_neg h2]
+    · refine Or.inl ⟨by simp [HStep.isCreate, hcaller], ?_⟩
+      simp only [ctr]
+      rw [C07.create_touches_only_own_counter s.env s.c { accts := A } ctx' out he' h tok (fun e => hcaller e.symm)]
+  · refine Or.inl ⟨by simp [HStep.isCreate, hc], ?_⟩
+    simp only [ctr]
+    rw [C07.counters_change_only_through s.f ⟨hc, hno⟩ s.env s.c { accts := A } ctx' out he h tok]
+
+/-- FULL (history level, one holder, no hand-over in the history): the nonces returned to `h` for `tok` are all above the
+    initial counter, strictly increasing, and bounded by the final counter -/
+theorem hrun_increasing (h tok : Bytes) : ∀ (steps : List HStep) (A : Accts),
+    (∀ s ∈ steps, s.f ≠ .nftCreateRoleTransfer) → NoWrapAlong h tok steps A →
+    List.Pairwise (· < ·) (hrun h tok steps A).1 ∧
+    (∀ n ∈ (hrun h tok steps A).1, ctr A h tok < n ∧ n ≤ ctr (hrun h tok steps A).2 h tok) ∧
+    ctr A h tok ≤ ctr (hrun h tok steps A).2 h tok := by
+  intro steps
+  induction steps with
+  | nil => intro A _ _; simp [hrun]
+  | cons s rest ih =>
+    intro A hno hw
+    have hno' : ∀ s' ∈ rest, s'.f ≠ .nftCreateRoleTransfer := fun s' hs' => hno s' (by simp [hs'])
+    obtain ⟨hw0, hwrest⟩ := hw
+    simp only [hrun]
+    cases he : exec s.env s.f s.c { accts := A } with
+    | ok p =>
+      obtain ⟨out, ctx'⟩ := p
+      simp only [he] at hwrest ⊢
+      obtain ⟨ih1, ih2, ih3⟩ := ih ctx'.accts hno' hwrest
+      rcases hstep_counter h tok s (hno s (by simp)) A out ctx' he hw0 with ⟨hc, hsame⟩ | ⟨hc, hinc, hret⟩
+      · simp only [hc, Bool.false_eq_true, if_false]
+        rw [hsame] at ih2 ih3
+        exact ⟨ih1, ih2, ih3⟩
+      · simp only [hc, if_true]
+        refine ⟨?_, ?_, by omega⟩
+        · refine List.pairwise_cons.mpr ⟨?_, ih1⟩
+          intro n hn
+          have := (ih2 n hn).1
+          omega
+        · intro n hn
+          rcases List.mem_cons.mp hn with rfl | hn
+          · omega
+          · have := ih2 n hn
+            omega
+    | err e' =>
+      simp only [he] at hwrest ⊢
+      exact ih A hno' hwrest
+    | panic =>
+      simp only [he] at hwrest ⊢
+      exact ih A hno' hwrest
+
+end Esdt
+
+
+namespace C07
+open Esdt
+
+/-- FULL (history level, one holder): along ANY sequence of built-in calls by anyone — all 23 functions, any arguments,
+    failed calls rolled back — that contains no hand-over, the nonces returned to holder `h` for token `tok` are strictly
+    increasing (hence pairwise distinct), all above the counter the history started with and at most the final counter.
+    With single-creator discipline (only `h` holds the create role of `tok`: C03.role_gate refuses everybody else) this is
+    "no two NFTs of the token share a nonce" for histories without hand-over; hand-overs: `handover_strips_and_ships`,
+    `handover_installs` (the new holder continues from the shipped counter). -/
+theorem nonces_increasing_history (h tok : Bytes) (steps : List HStep) (A : Accts)
+    (hno : ∀ s ∈ steps, s.f ≠ .nftCreateRoleTransfer) (hw : NoWrapAlong h tok steps A) :
+    List.Pairwise (· < ·) (hrun h tok steps A).1 ∧
+    (∀ n ∈ (hrun h tok steps A).1, ctr A h tok < n ∧ n ≤ ctr (hrun h tok steps A).2 h tok) :=
+  ⟨(hrun_increasing h tok steps A hno hw).1, (hrun_increasing h tok steps A hno hw).2.1⟩
+
+/-- non-vacuity: create, an unrelated SaveKeyValue by someone else, create again: nonces [1, 2] -/
+def bob : Bytes := List.replicate 32 2
+def skvCall : Call := { fn := fnSaveKeyValue, caller := bob, rcv := bob, args := [[107], [118]], gas := 100 }
+example : (hrun alice tk [⟨.nftCreate, sampleEnv, createCall⟩, ⟨.saveKeyValue, sampleEnv, skvCall⟩,
+    ⟨.nftCreate, sampleEnv, createCall⟩] w0).1 = [1, 2] := by decide +kernel
+
+end C07
